@@ -97,6 +97,12 @@ expand again. -/
 def fibreModes (Mc : List (List K)) (ph : List K) (Mh : List (List K)) (w : List K) : Term K :=
   .comp (.matrix Mc) (.comp (.mulField ph) (.comp (.matrix Mh) (.mulField w)))
 
+/-- `FraunhoferPropagator`: `fourier_transform.forward(E) * norm_factor` (backward: `… / norm_factor`): the
+element's own Fourier-transform object as a matrix, times the scalar the propagator computes from focal
+length and wavelength.  (`FresnelPropagator`, `AngularSpectrumPropagator` and every `FourierFilter`-based
+element are a `sandwich`: cut-out ∘ inverse FFT, transfer function, FFT ∘ zero-padding.) -/
+def scaledTransform (c : K) (F : List (List K)) : Term K := .scale c (.matrix F)
+
 /-! ### The family table: what the driver op `C06 denote-family` executes
 
 The harness names a family and supplies the element's exposed parameters as arguments; the *term* is
@@ -105,12 +111,13 @@ built here, by `familyTerm`, from the schemas above — not in Python. -/
 inductive Family where
   | pointwise | dense | fibreForward | fibreBackward | projection | lyotCore | lyotForward | lyotBackward
   | sandwich | multiscaleForward | multiscaleBackward | system | fibreNuller | fibreNullerBackward
-  | fibreModes
+  | fibreModes | scaledTransform
   deriving DecidableEq, Repr
 
 def Family.all : List Family :=
   [.pointwise, .dense, .fibreForward, .fibreBackward, .projection, .lyotCore, .lyotForward, .lyotBackward,
-   .sandwich, .multiscaleForward, .multiscaleBackward, .system, .fibreNuller, .fibreNullerBackward, .fibreModes]
+   .sandwich, .multiscaleForward, .multiscaleBackward, .system, .fibreNuller, .fibreNullerBackward, .fibreModes,
+   .scaledTransform]
 
 def Family.name : Family → String
   | .pointwise => "pointwise" | .dense => "dense" | .fibreForward => "fibreForward"
@@ -118,7 +125,7 @@ def Family.name : Family → String
   | .lyotForward => "lyotForward" | .lyotBackward => "lyotBackward" | .sandwich => "sandwich"
   | .multiscaleForward => "multiscaleForward" | .multiscaleBackward => "multiscaleBackward"
   | .system => "system" | .fibreNuller => "fibreNuller" | .fibreNullerBackward => "fibreNullerBackward"
-  | .fibreModes => "fibreModes"
+  | .fibreModes => "fibreModes" | .scaledTransform => "scaledTransform"
 
 def Family.ofString? (s : String) : Option Family := Family.all.find? (·.name == s)
 
@@ -187,6 +194,7 @@ def familyTerm : Family → List (Arg K) → Option (Term K)
     | some apod => some (fibreNullerBackward apod Pb B)
     | none => none
   | .fibreModes, [.mat Mc, .vec ph, .mat Mh, .vec w] => some (fibreModes Mc ph Mh w)
+  | .scaledTransform, [.vec [c], .mat F] => some (scaledTransform c F)
   | _, _ => none
 
 end Terms
